@@ -12,6 +12,7 @@ import Driver.ScramIO
 import Driver.CodecIO
 import Driver.TxnIO
 import Driver.TxnTraceIO
+import Driver.SafeIO
 /-!
 Line-protocol driver: one operation per line on stdin, one canonical line per operation on stdout.
 The first token selects the model; unknown or malformed lines print `bad-op` (never a default).
@@ -38,6 +39,7 @@ def dispatch (toks : List String) : Option String :=
   | "c09" :: rest => CodecIO.handle rest
   | "c16" :: rest => TxnIO.handle rest
   | "c07" :: rest => TxnTraceIO.handle rest
+  | "c10" :: rest => SafeIO.handle rest
   | _ => none
 
 partial def loop (h : IO.FS.Stream) (out : IO.FS.Stream) : IO Unit := do
